@@ -178,6 +178,59 @@ theorem C17_unfin_below_head {g : Blk} {st : St} (inv : Inv g st) (h r s : Nat)
     rw [← f.hnh]
     exact desc_of_mem_up inv.tree _ y hn.hash hk.1 hup
 
+/-! ### the converse direction: does the new head keep its own trie? -/
+
+theorem mem_up_of_desc {st : St} (ht : TreeOK st) {a h : Nat} (hd : Desc st a h) :
+    ∀ b ∈ st.tree, b.hash = h → a ∈ up st b := by
+  induction hd with
+  | refl => intro b _ hb; rw [← hb]; exact self_mem_up st b
+  | @step h' c hf hr _ ih =>
+    intro b hb hbh
+    have hc : c = b := by
+      have := findB_some hf
+      exact ht.uniq.eq_of_hash this.1 hb (this.2.trans hbh.symm)
+    subst hc
+    have hbr : c.hash ≠ st.root := by rw [hbh]; exact hr
+    obtain ⟨p, hp⟩ := parentNode_nonroot ht hb hbr
+    obtain ⟨_, hfp, hpt, _⟩ := parentNode_some ht hb hp
+    rw [up_step ht hb hp]
+    exact List.mem_cons_of_mem _ (ih p hpt (findB_some hfp).2)
+
+/-- **the head keeps its trie when state roots are not shared**: `Tries.delete` is keyed by state root, so the
+    new head's trie survives the finalisation provided no block outside its subtree (old head, finalised
+    ancestors, abandoned forks) has the same state root. -/
+theorem C17_head_trie_kept {g : Blk} {st : St} (inv : Inv g st) (h r s : Nat)
+    (hok : (setFinalised g.hash st h r s).2 = .ok) (hne : h ≠ st.root) (hn : Blk)
+    (hhn : findB st.tree h = some hn) (hin : hn.sroot ∈ st.tries)
+    (huniq : ∀ b ∈ st.tree, ¬ Desc st h b.hash → b.sroot ≠ hn.sroot) :
+    hn.sroot ∈ (setFinalised g.hash st h r s).1.tries := by
+  rcases setFinalised_cases inv h r s with ⟨_, h2⟩ | ⟨hr, _, _⟩ | ⟨_, _, rb, hn', rest, m⟩
+  · rcases h2 with h2 | h2 | ⟨e, h2⟩ <;> rw [h2] at hok <;> cases hok
+  · exact absurd hr hne
+  · have f := m.facts inv hne
+    have : hn' = hn := by rw [m.headB] at hhn; exact Option.some.inj hhn
+    subst this
+    have notDesc : ∀ b ∈ st.tree, hn'.hash ∉ up st b → ¬ Desc st h b.hash := by
+      intro b hb hnu hd
+      exact hnu (f.hnh ▸ mem_up_of_desc inv.tree hd b hb rfl)
+    refine m.triesKeep _ hin ?_ ?_ ?_
+    · have hrbt := (findB_some m.rootB).1
+      refine (huniq rb hrbt (notDesc rb hrbt ?_)).symm
+      rw [up_root f.rbh]
+      intro hm
+      exact hne (by rw [← f.hnh, List.mem_singleton.mp hm, f.rbh])
+    · intro b hb hbh
+      have hbt := (f.restTree b hb).1
+      have hbn : b ≠ hn' := fun he => hbh (by rw [he, f.hnh])
+      exact huniq b hbt (notDesc b hbt (not_mem_up_of_lt inv.tree hbt f.hnTree (f.restLt b hb hbn)))
+    · intro b hb
+      have hbm := List.mem_filter.mp hb
+      have : hn'.hash ∉ up st b := by
+        have := hbm.2
+        simp only [Bool.and_eq_true, Bool.not_eq_true', decide_eq_false_iff_not] at this
+        exact this.1
+      exact huniq b hbm.1 (notDesc b hbm.1 this)
+
 /-! ### C17_number_lookup -/
 
 /-- `subchain[1:]` of `handleFinalisedBlock` -/
@@ -364,5 +417,19 @@ example : (setFinalised 1 (setFinalised 1 (run wG wOps) 3 1 0).1 4 2 0).2 = .err
 example : (setFinalised 1 (setFinalised 1 (run wG wOps) 3 1 0).1 2 2 0).2 = .errRange .endNotFound := by decide
 example : (setFinalised 1 (setFinalised 1 (run wG wOps) 3 1 0).1 77 2 0).2 = .errUnknown := by decide
 example : (setFinalised 1 (setFinalised 1 (run wG wOps) 3 1 5).1 3 2 4).2 = .errSetID := by decide
+
+/-- **shared state roots evict the head's trie** (the converse of C17's last sentence does NOT hold in general):
+    g ← 1, then 2 and 3 are siblings under 1 with the SAME state root 6; finalising 2 prunes 3, and
+    `tries.delete(3's state root)` removes the trie the new head 2 needs.  `Tries` is a cache
+    (`StorageState.TrieState` reloads a missing trie from the database), so this costs a reload, not state. -/
+def xG : Blk := { hash := 1, parent := 0, number := 0, sroot := 0 }
+def x1 : Blk := { hash := 2, parent := 1, number := 1, sroot := 5 }
+def x2 : Blk := { hash := 3, parent := 2, number := 2, sroot := 6 }
+def x3 : Blk := { hash := 4, parent := 2, number := 2, sroot := 6 }
+
+theorem C17_shared_root_evicts_head_trie :
+    let st := run xG [.add x1, .add x2, .add x3]
+    (setFinalised 1 st 3 1 0).2 = .ok ∧ x2.sroot ∈ st.tries ∧ x2.sroot ∉ (setFinalised 1 st 3 1 0).1.tries := by
+  decide
 
 end Gossamer.C17
